@@ -1,74 +1,86 @@
-/- simulation of the generous layer by the stream layer, operation by operation -/
+/- simulation of the generous layer by the stream layer, operation by operation, INCLUDING the
+   capture operations: while a `CaptureSource` is open the base source is not advanced; the
+   generous layer advances its data eagerly.  The two are related through the octets captured so
+   far (`S.off`). -/
 import Bcder.Model.Stream
 namespace Bcder
 
+/-- what the innermost source still has in front of it: the base data behind the captured offset -/
+def S.vd (s : S) : Bytes := s.data.drop s.off
+/-- how much of that the base source has granted -/
+def S.vg (s : S) : Nat := s.granted - s.off
+
 /-- the stream state `s` is represented by the generous state `g` -/
 structure Rel (s : S) (g : G) : Prop where
-  data : g.data = s.data
+  data : g.data = s.vd
   limit : g.limit = s.limit
-  frames : g.frames = []
-  seen : g.seen ≤ s.granted
+  frames : g.frames = s.frames
+  seen : g.seen ≤ s.vg
+  off : s.off ≤ s.granted
   granted : s.granted ≤ s.data.length
+
+theorem S.vd_length (s : S) : s.vd.length = s.data.length - s.off := by
+  simp [S.vd, List.length_drop]
 
 theorem view_length (g : G) :
     g.view.length = match g.limit with | some l => min l g.data.length | none => g.data.length := by
   unfold G.view; cases g.limit <;> simp
 
 /-- what a request does, arithmetically -/
-theorem request_spec (pol : Policy) (hp : Conforming pol) (s : S) (n : Nat) (hg : s.granted ≤ s.data.length) :
+theorem request_spec (pol : Policy) (hp : Conforming pol) (s : S) (n : Nat)
+    (ho : s.off ≤ s.granted) (hg : s.granted ≤ s.data.length) :
     (s.failAt = some s.reqs ∧ s.request pol n = .error .source) ∨
     (s.failAt ≠ some s.reqs ∧ ∃ g', s.request pol n =
-        .ok ((match s.limit with | some l => min l g' | none => g'),
+        .ok ((match s.limit with | some l => min l (g' - s.off) | none => g' - s.off),
              { s with reqs := s.reqs + 1, granted := g' }) ∧
       s.granted ≤ g' ∧ g' ≤ s.data.length ∧
-      min (match s.limit with | some l => min l n | none => n) s.data.length ≤ g') := by
+      min (match s.limit with | some l => min l n | none => n) s.vd.length ≤ g' - s.off) := by
   by_cases hf : s.failAt = some s.reqs
   · left; refine ⟨hf, ?_⟩
     unfold S.request S.baseRequest; cases s.limit <;> simp [hf]
   · right; refine ⟨hf, ?_⟩
+    rw [S.vd_length]
     cases hl : s.limit with
     | none =>
-      have := hp s.reqs n s.data.length
-      refine ⟨max s.granted (pol s.reqs n s.data.length), ?_, ?_, ?_, ?_⟩
-      · simp [S.request, S.baseRequest, hf, hl]
+      have := hp s.reqs (s.off + n) s.data.length
+      refine ⟨max s.granted (pol s.reqs (s.off + n) s.data.length), ?_, ?_, ?_, ?_⟩
+      · have hlt : ¬ max s.granted (pol s.reqs (s.off + n) s.data.length) < s.off := by omega
+        simp [S.request, S.baseRequest, hf, hl, hlt]
       · omega
       · omega
       · simp only; omega
     | some l =>
-      have := hp s.reqs (min l n) s.data.length
-      refine ⟨max s.granted (pol s.reqs (min l n) s.data.length), ?_, ?_, ?_, ?_⟩
-      · simp [S.request, S.baseRequest, hf, hl]
+      have := hp s.reqs (s.off + min l n) s.data.length
+      refine ⟨max s.granted (pol s.reqs (s.off + min l n) s.data.length), ?_, ?_, ?_, ?_⟩
+      · have hlt : ¬ max s.granted (pol s.reqs (s.off + min l n) s.data.length) < s.off := by omega
+        simp [S.request, S.baseRequest, hf, hl, hlt]
       · omega
       · omega
       · simp only; omega
 
-end Bcder
-
-namespace Bcder
 
 /-- outcome of one stream-layer step relative to the generous step `(r, g')` -/
 def StepOK (pol : Policy) (s : S) (o : Op) (r : Resp) (g' : G) : Prop :=
   (s.failAt = some s.reqs ∧ stepS pol s o = .error .source) ∨
   ∃ s', stepS pol s o = .ok (r, s') ∧ Rel s' g' ∧ s'.failAt = s.failAt
 
-theorem take_take_min (d : Bytes) (a b : Nat) : (d.take a).take b = d.take (min b a) := by
-  rw [List.take_take]
-
 /-- after a request the stream slice restricted to the limit shows at least the stingy grant -/
-theorem slice_getElem (s : S) (i : Nat) (hi : i < s.granted)
-    (hl : match s.limit with | some l => i < l | none => True) (hd : s.granted ≤ s.data.length) :
-    s.slice[i]? = s.data[i]? := by
+theorem slice_getElem (s : S) (i : Nat) (hi : i < s.vg)
+    (hl : match s.limit with | some l => i < l | none => True) (ho : s.off ≤ s.granted)
+    (hd : s.granted ≤ s.data.length) :
+    s.slice[i]? = s.vd[i]? := by
+  have hi' : s.off + i < s.granted := by unfold S.vg at hi; omega
+  have hb : ((s.data.take s.granted).drop s.off)[i]? = s.vd[i]? := by
+    simp only [S.vd, List.getElem?_drop, List.getElem?_take, hi', if_true]
   unfold S.slice
   cases h : s.limit with
-  | none => simp [List.getElem?_take, hi]
+  | none => simpa using hb
   | some l =>
     rw [h] at hl
     simp only
     split
-    · rw [List.take_take]
-      simp [List.getElem?_take]
-      omega
-    · simp [List.getElem?_take, hi]
+    · rw [List.getElem?_take, if_pos hl]; exact hb
+    · exact hb
 
 theorem view_getElem (g : G) (i : Nat) (hi : i < g.view.length) : g.view[i]? = g.data[i]? := by
   unfold G.view at *
@@ -80,81 +92,93 @@ theorem view_request (g : G) (n : Nat) : (g.request n).view = g.view := rfl
 
 /-- the length of the generous view, in terms of the stream state -/
 theorem vlen (s : S) (g : G) (R : Rel s g) :
-    g.view.length = match s.limit with | some l => min l s.data.length | none => s.data.length := by
+    g.view.length = match s.limit with | some l => min l s.vd.length | none => s.vd.length := by
   rw [view_length, R.limit, R.data]
 
 theorem rel_request (s : S) (g : G) (R : Rel s g) (n g' : Nat)
     (h1 : s.granted ≤ g') (h2 : g' ≤ s.data.length)
-    (h3 : min (match s.limit with | some l => min l n | none => n) s.data.length ≤ g') :
+    (h3 : min (match s.limit with | some l => min l n | none => n) s.vd.length ≤ g' - s.off) :
     Rel { s with reqs := s.reqs + 1, granted := g' } (g.request n) := by
   have v := vlen s g R
+  have ho := R.off
   constructor
   · exact R.data
   · exact R.limit
   · exact R.frames
   · have := R.seen
-    simp only [G.request]
+    show max g.seen (min n g.view.length) ≤ g' - s.off
+    unfold S.vg at this
     rw [v]
     cases hl : s.limit <;> simp [hl] at h3 ⊢ <;> omega
+  · show s.off ≤ g'; omega
   · exact h2
 
 theorem sim_need (pol : Policy) (hp : Conforming pol) (s : S) (g : G) (R : Rel s g) (n : Nat) :
     StepOK pol s (.need n) (.bool (decide (n ≤ (g.request n).view.length))) (g.request n) := by
-  rcases request_spec pol hp s n R.granted with ⟨hf, he⟩ | ⟨hf, g', he, h1, h2, h3⟩
+  rcases request_spec pol hp s n R.off R.granted with ⟨hf, he⟩ | ⟨hf, g', he, h1, h2, h3⟩
   · left; exact ⟨hf, by simp [stepS, he]⟩
   · right
     have v := vlen s g R
     refine ⟨{ s with reqs := s.reqs + 1, granted := g' }, ?_, rel_request s g R n g' h1 h2 h3, rfl⟩
-    have key : (n ≤ (match s.limit with | some l => min l g' | none => g')) ↔ n ≤ (g.request n).view.length := by
+    have key : (n ≤ (match s.limit with | some l => min l (g' - s.off) | none => g' - s.off)) ↔
+        n ≤ (g.request n).view.length := by
       rw [view_request, v]
+      have hvl := S.vd_length s
+      have ho := R.off
       cases hl : s.limit <;> simp [hl] at h3 ⊢ <;> omega
     simp [stepS, he, key]
 
 theorem sim_reqCapped (pol : Policy) (hp : Conforming pol) (s : S) (g : G) (R : Rel s g) (n : Nat) :
     StepOK pol s (.reqCapped n) (.nat (min n (g.request n).view.length)) (g.request n) := by
-  rcases request_spec pol hp s n R.granted with ⟨hf, he⟩ | ⟨hf, g', he, h1, h2, h3⟩
+  rcases request_spec pol hp s n R.off R.granted with ⟨hf, he⟩ | ⟨hf, g', he, h1, h2, h3⟩
   · left; exact ⟨hf, by simp [stepS, he]⟩
   · right
     have v := vlen s g R
     refine ⟨{ s with reqs := s.reqs + 1, granted := g' }, ?_, rel_request s g R n g' h1 h2 h3, rfl⟩
-    have key : min n (match s.limit with | some l => min l g' | none => g') = min n (g.request n).view.length := by
+    have key : min n (match s.limit with | some l => min l (g' - s.off) | none => g' - s.off) =
+        min n (g.request n).view.length := by
       rw [view_request, v]
+      have hvl := S.vd_length s
+      have ho := R.off
       cases hl : s.limit <;> simp [hl] at h3 ⊢ <;> omega
     simp [stepS, he, key]
 
 
 theorem sim_peekAt (pol : Policy) (hp : Conforming pol) (s : S) (g : G) (R : Rel s g) (i : Nat) :
     StepOK pol s (.peekAt i) (.byte (g.request (i + 1)).view[i]?) (g.request (i + 1)) := by
-  rcases request_spec pol hp s (i + 1) R.granted with ⟨hf, he⟩ | ⟨hf, g', he, h1, h2, h3⟩
+  rcases request_spec pol hp s (i + 1) R.off R.granted with ⟨hf, he⟩ | ⟨hf, g', he, h1, h2, h3⟩
   · left; exact ⟨hf, by simp [stepS, he]⟩
   · right
     have v := vlen s g R
+    have hvl := S.vd_length s
+    have ho := R.off
     let s1 : S := { s with reqs := s.reqs + 1, granted := g' }
     refine ⟨s1, ?_, rel_request s g R (i + 1) g' h1 h2 h3, rfl⟩
     rw [view_request]
     by_cases hv : i < g.view.length
     · -- the octet is there: the stream source has granted it
-      have hr : ¬ (match s.limit with | some l => min l g' | none => g') ≤ i := by
+      have hr : ¬ (match s.limit with | some l => min l (g' - s.off) | none => g' - s.off) ≤ i := by
         rw [v] at hv
         cases hl : s.limit <;> simp [hl] at h3 hv ⊢ <;> omega
-      have hsl : s1.slice[i]? = s1.data[i]? := by
+      have hsl : s1.slice[i]? = s1.vd[i]? := by
         apply slice_getElem
-        · show i < g'
+        · show i < g' - s.off
           rw [v] at hv
           cases hl : s.limit <;> simp [hl] at h3 hv ⊢ <;> omega
         · show match s.limit with | some l => i < l | none => True
           rw [v] at hv
           cases hl : s.limit <;> simp [hl] at hv ⊢; omega
+        · show s.off ≤ g'; omega
         · exact h2
-      have hd : s1.data[i]? = g.view[i]? := by
-        rw [view_getElem g i hv, R.data]
+      have hd : s1.vd[i]? = g.view[i]? := by
+        rw [view_getElem g i hv, R.data]; rfl
       have hsome : ∃ b, g.view[i]? = some b := ⟨g.view[i], by simp [hv]⟩
       obtain ⟨b, hb⟩ := hsome
       simp only [stepS, he, hr, if_false]
       rw [show s1.slice[i]? = some b from by rw [hsl, hd, hb]]
       simp [hb]
       rfl
-    · have hr : (match s.limit with | some l => min l g' | none => g') ≤ i := by
+    · have hr : (match s.limit with | some l => min l (g' - s.off) | none => g' - s.off) ≤ i := by
         rw [v] at hv
         cases hl : s.limit <;> simp [hl] at hv ⊢ <;> omega
       have : g.view[i]? = none := by simp; omega
@@ -164,38 +188,47 @@ theorem sim_peekAt (pol : Policy) (hp : Conforming pol) (s : S) (g : G) (R : Rel
 theorem sim_peek2 (pol : Policy) (hp : Conforming pol) (s : S) (g : G) (R : Rel s g) :
     StepOK pol s .peek2
       (.peek (min 2 (g.request 2).view.length) (g.request 2).view[0]? (g.request 2).view[1]?) (g.request 2) := by
-  rcases request_spec pol hp s 2 R.granted with ⟨hf, he⟩ | ⟨hf, g', he, h1, h2, h3⟩
+  rcases request_spec pol hp s 2 R.off R.granted with ⟨hf, he⟩ | ⟨hf, g', he, h1, h2, h3⟩
   · left; exact ⟨hf, by simp [stepS, he]⟩
   · right
     have v := vlen s g R
+    have hvl := S.vd_length s
+    have ho := R.off
     let s1 : S := { s with reqs := s.reqs + 1, granted := g' }
     refine ⟨s1, ?_, rel_request s g R 2 g' h1 h2 h3, rfl⟩
     rw [view_request]
-    have hn : min 2 (match s.limit with | some l => min l g' | none => g') = min 2 g.view.length := by
+    have hn : min 2 (match s.limit with | some l => min l (g' - s.off) | none => g' - s.off) = min 2 g.view.length := by
       rw [v]; cases hl : s.limit <;> simp [hl] at h3 ⊢ <;> omega
     -- element i of the slice agrees with element i of the view, for i < 2
     have elem : ∀ i, i < 2 → s1.slice[i]? = g.view[i]? := by
       intro i hi
       by_cases hv : i < g.view.length
       · rw [view_getElem g i hv, R.data]
+        show s1.slice[i]? = s1.vd[i]?
         apply slice_getElem
-        · show i < g'
+        · show i < g' - s.off
           rw [v] at hv; cases hl : s.limit <;> simp [hl] at h3 hv ⊢ <;> omega
         · show match s.limit with | some l => i < l | none => True
           rw [v] at hv; cases hl : s.limit <;> simp [hl] at hv ⊢; omega
+        · show s.off ≤ g'; omega
         · exact h2
       · have h1' : g.view[i]? = none := by simp; omega
         rw [h1']
         -- the slice is no longer than the view
-        have hlen : (s.data.take g').length = g' := by simp [List.length_take]; omega
+        have hlen : ((s.data.take g').drop s.off).length = g' - s.off := by
+          simp [List.length_drop, List.length_take]; omega
         have : s1.slice.length ≤ g.view.length := by
           rw [v]
           show (S.slice s1).length ≤ _
           unfold S.slice
+          show (match s.limit with
+            | some l => if ((s.data.take g').drop s.off).length > l then ((s.data.take g').drop s.off).take l
+                        else (s.data.take g').drop s.off
+            | none => (s.data.take g').drop s.off).length ≤ _
           cases hl : s.limit with
-          | none => simp only [s1, hl]; rw [hlen]; omega
+          | none => simp only; rw [hlen]; omega
           | some l =>
-            simp only [s1, hl]
+            simp only
             split
             · rename_i hgt; rw [hlen] at hgt; rw [List.length_take, hlen]; omega
             · rename_i hgt; rw [hlen] at hgt ⊢; omega
@@ -208,47 +241,94 @@ theorem sim_peek2 (pol : Policy) (hp : Conforming pol) (s : S) (g : G) (R : Rel 
     rw [e0, e1]
 
 
+theorem S.off_nil (s : S) (h : s.frames = []) : s.off = 0 := by simp [S.off, h]
+theorem S.off_cons (s : S) (f : Frame) (fs : List Frame) (h : s.frames = f :: fs) :
+    s.off = f.buf.length + (fs.map (·.buf.length)).sum := by simp [S.off, h]
+
+theorem S.advance_ok (s : S) (n : Nat) (hl : ∀ l, s.limit = some l → ¬ l < n) (hc : ¬ s.granted < s.off + n) :
+    s.advance n = .ok (match s.frames with
+      | [] => { s with data := s.data.drop n, granted := s.granted - n, limit := s.limit.map (· - n) }
+      | f :: fs => { s with frames := { f with buf := f.buf ++ (s.data.drop s.off).take n } :: fs,
+                            limit := s.limit.map (· - n) }) := by
+  unfold S.advance
+  cases hlim : s.limit with
+  | none => simp only [Bool.false_eq_true, if_false, hc]; cases s.frames <;> rfl
+  | some l =>
+    have := hl l hlim
+    simp only [this, decide_false, Bool.false_eq_true, if_false, hc]; cases s.frames <;> rfl
+
 theorem adv_sim (s : S) (g : G) (R : Rel s g) (n : Nat) (g' : G) (h : g.advance n = .ok g') :
     ∃ s', s.advance n = .ok s' ∧ Rel s' g' ∧ s'.failAt = s.failAt := by
-  have hs := R.seen; have hg := R.granted
+  have hs := R.seen; have hg := R.granted; have ho := R.off
+  have hvl := S.vd_length s
+  unfold S.vg at hs
   unfold G.advance at h
   split at h
   · simp at h
   · split at h
     · simp at h
     · rename_i h1 h2
-      rw [R.frames, R.limit] at h
-      cases hl : s.limit with
-      | none =>
-        rw [hl] at h
-        simp only [Except.ok.injEq] at h
-        subst h
-        refine ⟨{ s with data := s.data.drop n, granted := s.granted - n }, ?_, ?_, rfl⟩
-        · have : ¬ s.granted < n := by omega
-          simp [S.advance, hl, this]
-        · constructor
-          · simp [R.data]
-          · simp [hl]
-          · rfl
-          · simp; omega
-          · simp [List.length_drop]; rw [R.data] at h2; omega
-      | some l =>
-        rw [hl] at h
-        simp only at h
-        split at h
-        · simp at h
-        · rename_i h3
+      rw [R.data] at h2
+      have hc : ¬ s.granted < s.off + n := by omega
+      -- the limit check and the new limit
+      have hlim : ¬ (match s.limit with | some l => decide (l < n) | none => false) = true ∧
+          g'.limit = s.limit.map (· - n) ∧ g'.data = g.data.drop n ∧ g'.seen = g.seen - n ∧
+          g'.frames = (match g.frames with
+            | [] => []
+            | f :: fs => { f with buf := f.buf ++ g.data.take n } :: fs) := by
+        rw [R.limit] at h
+        cases hl : s.limit with
+        | none =>
+          rw [hl] at h
           simp only [Except.ok.injEq] at h
           subst h
-          refine ⟨{ s with data := s.data.drop n, granted := s.granted - n, limit := some (l - n) }, ?_, ?_, rfl⟩
-          · have : ¬ s.granted < n := by omega
-            simp [S.advance, hl, this, h3]
-          · constructor
-            · simp [R.data]
-            · rfl
-            · rfl
-            · simp; omega
-            · simp [List.length_drop]; rw [R.data] at h2; omega
+          exact ⟨by simp, by simp [R.limit, hl], rfl, rfl, rfl⟩
+        | some l =>
+          rw [hl] at h
+          simp only at h
+          split at h
+          · simp at h
+          · rename_i h3
+            simp only [Except.ok.injEq] at h
+            subst h
+            exact ⟨by simp [h3], rfl, rfl, rfl, rfl⟩
+      obtain ⟨hl1, hl2, hd, hseen, hfr⟩ := hlim
+      have hl1' : ∀ l, s.limit = some l → ¬ l < n := by
+        intro l hl hlt; apply hl1; rw [hl]; simp [hlt]
+      cases hF : s.frames with
+      | nil =>
+        have h0 := S.off_nil s hF
+        refine ⟨{ s with data := s.data.drop n, granted := s.granted - n, limit := s.limit.map (· - n) }, ?_, ?_, rfl⟩
+        · rw [S.advance_ok s n hl1' hc]; simp only [hF]
+        · have h0' : ({ s with data := s.data.drop n, granted := s.granted - n, limit := s.limit.map (· - n) } : S).off = 0 := by
+            simp [S.off, hF]
+          constructor
+          · rw [hd, R.data]; simp [S.vd, h0, h0']
+          · exact hl2
+          · rw [hfr, R.frames, hF]
+          · rw [hseen]; simp only [S.vg, h0']; rw [h0] at hs; omega
+          · rw [h0']; omega
+          · show s.granted - n ≤ (s.data.drop n).length
+            rw [List.length_drop]; rw [h0] at hc; omega
+      | cons f fs =>
+        have hof := S.off_cons s f fs hF
+        let s' : S := { s with frames := { f with buf := f.buf ++ (s.data.drop s.off).take n } :: fs,
+                               limit := s.limit.map (· - n) }
+        have hlen : ((s.data.drop s.off).take n).length = n := by
+          rw [List.length_take, List.length_drop]; omega
+        have hsum : ∀ X : Bytes, X.length = n →
+            (({ f with buf := f.buf ++ X } :: fs : List Frame).map (·.buf.length)).sum = s.off + n := by
+          intro X hX; rw [hof]; simp only [List.map_cons, List.sum_cons, List.length_append, hX]; omega
+        have hoff' : s'.off = s.off + n := hsum _ hlen
+        refine ⟨s', ?_, ?_, rfl⟩
+        · rw [S.advance_ok s n hl1' hc]; simp only [hF]; rfl
+        · constructor
+          · rw [hd, R.data]; simp only [S.vd, hoff', List.drop_drop]; rfl
+          · exact hl2
+          · rw [hfr, R.frames, hF, R.data]; rfl
+          · rw [hseen]; simp only [S.vg, hoff']; show g.seen - n ≤ s.granted - (s.off + n); omega
+          · rw [hoff']; show s.off + n ≤ s.granted; omega
+          · exact hg
 
 theorem sim_skipN (pol : Policy) (s : S) (g : G) (R : Rel s g) (n : Nat) (r : Resp) (g' : G)
     (h : stepG g (.skipN n) = .ok (r, g')) : StepOK pol s (.skipN n) r g' := by
@@ -283,16 +363,18 @@ theorem sim_takeN (pol : Policy) (s : S) (g : G) (R : Rel s g) (n : Nat) (r : Re
         subst hr; subst hg
         obtain ⟨s', hs, R', hf⟩ := adv_sim s g R n g1 ha
         have v := vlen s g R
-        have hb : s.bytes0 n = .ok (s.data.take n) := by
+        have hb : s.bytes0 n = .ok (s.vd.take n) := by
           have hs' := R.seen
-          have : ¬ s.granted < n := by omega
+          have ho := R.off
+          unfold S.vg at hs'
+          have : ¬ s.granted < s.off + n := by omega
           unfold S.bytes0
           cases hl : s.limit with
-          | none => simp [this]
+          | none => simp [this, S.vd]
           | some l =>
             rw [v, hl] at hv
             have : ¬ l < n := by simp at hv; omega
-            simp [this, *]
+            simp [this, S.vd, *]
         exact ⟨s', by simp [stepS, hb, hs, R.data], R', hf⟩
 
 theorem sim_sliceN (pol : Policy) (s : S) (g : G) (R : Rel s g) (n : Nat) (r : Resp) (g' : G)
@@ -309,24 +391,35 @@ theorem sim_sliceN (pol : Policy) (s : S) (g : G) (R : Rel s g) (n : Nat) (r : R
       obtain ⟨hr, hg⟩ := h
       subst hr; subst hg
       have v := vlen s g R
-      have hs' := R.seen; have hg' := R.granted
-      have hlen : (s.data.take s.granted).length = s.granted := by simp [List.length_take]; omega
+      have hs' := R.seen; have hg' := R.granted; have ho := R.off
+      have hvl := S.vd_length s
+      unfold S.vg at hs'
+      have hlen : ((s.data.take s.granted).drop s.off).length = s.granted - s.off := by
+        simp [List.length_drop, List.length_take]; omega
+      have hpre : ((s.data.take s.granted).drop s.off).take n = s.vd.take n := by
+        apply List.ext_getElem?
+        intro i
+        simp only [List.getElem?_take, S.vd, List.getElem?_drop]
+        by_cases hi : i < n
+        · have : s.off + i < s.granted := by omega
+          simp [hi, this]
+        · simp [hi]
       -- the slice has at least n octets and its first n are those of the data
-      have key : n ≤ s.slice.length ∧ s.slice.take n = s.data.take n := by
+      have key : n ≤ s.slice.length ∧ s.slice.take n = s.vd.take n := by
         unfold S.slice
         cases hl : s.limit with
         | none =>
           simp only
-          refine ⟨by rw [hlen]; omega, ?_⟩
-          rw [List.take_take]; congr 1; omega
+          exact ⟨by rw [hlen]; omega, hpre⟩
         | some l =>
           rw [v, hl] at hv
           simp only
           split
           · refine ⟨by rw [List.length_take, hlen]; simp at hv; omega, ?_⟩
-            rw [List.take_take, List.take_take]; congr 1; simp at hv; omega
-          · refine ⟨by rw [hlen]; omega, ?_⟩
-            rw [List.take_take]; congr 1; omega
+            rw [List.take_take]
+            have : min n l = n := by simp at hv; omega
+            rw [this]; exact hpre
+          · exact ⟨by rw [hlen]; omega, hpre⟩
       refine ⟨s, ?_, R, rfl⟩
       have : ¬ s.slice.length < n := by omega
       simp [stepS, this, key.2, R.data]
@@ -339,15 +432,17 @@ theorem sim_setLimit (pol : Policy) (s : S) (g : G) (R : Rel s g) (l : Option Na
     StepOK pol s (.setLimit l) .unit { g with limit := l } := by
   right
   refine ⟨{ s with limit := l }, by simp [stepS], ?_, rfl⟩
-  exact ⟨R.data, rfl, R.frames, R.seen, R.granted⟩
+  exact ⟨R.data, rfl, R.frames, R.seen, R.off, R.granted⟩
 
 
 theorem sim_takeOptU8 (pol : Policy) (hp : Conforming pol) (s : S) (g : G) (R : Rel s g) (r : Resp) (g' : G)
     (h : stepG g .takeOptU8 = .ok (r, g')) : StepOK pol s .takeOptU8 r g' := by
-  rcases request_spec pol hp s 1 R.granted with ⟨hf, he⟩ | ⟨hf, g1, he, h1, h2, h3⟩
+  rcases request_spec pol hp s 1 R.off R.granted with ⟨hf, he⟩ | ⟨hf, g1, he, h1, h2, h3⟩
   · left; exact ⟨hf, by simp [stepS, he]⟩
   · right
     have v := vlen s g R
+    have hvl := S.vd_length s
+    have ho := R.off
     have R1 := rel_request s g R 1 g1 h1 h2 h3
     simp only [stepG] at h
     rw [view_request] at h
@@ -357,7 +452,7 @@ theorem sim_takeOptU8 (pol : Policy) (hp : Conforming pol) (s : S) (g : G) (R : 
       simp at h
       obtain ⟨hr, hg⟩ := h
       subst hr; subst hg
-      have hz : (match s.limit with | some l => min l g1 | none => g1) < 1 := by
+      have hz : (match s.limit with | some l => min l (g1 - s.off) | none => g1 - s.off) < 1 := by
         have : g.view.length = 0 := by simp [hv]
         rw [v] at this
         cases hl : s.limit with
@@ -375,20 +470,21 @@ theorem sim_takeOptU8 (pol : Policy) (hp : Conforming pol) (s : S) (g : G) (R : 
         subst hr; subst hg
         obtain ⟨s2, hs2, R2, hf2⟩ := adv_sim _ _ R1 1 g2 ha
         have hpos : 0 < g.view.length := by simp [hv]
-        have hz : ¬ (match s.limit with | some l => min l g1 | none => g1) < 1 := by
+        have hz : ¬ (match s.limit with | some l => min l (g1 - s.off) | none => g1 - s.off) < 1 := by
           rw [v] at hpos
           cases hl : s.limit <;> simp [hl] at hpos h3 ⊢ <;> omega
         let s1 : S := { s with reqs := s.reqs + 1, granted := g1 }
         have hsl : s1.slice[0]? = some b := by
-          have : s1.slice[0]? = s1.data[0]? := by
+          have : s1.slice[0]? = s1.vd[0]? := by
             apply slice_getElem
-            · show 0 < g1
+            · show 0 < g1 - s.off
               rw [v] at hpos; cases hl : s.limit <;> simp [hl] at hpos h3 ⊢ <;> omega
             · show match s.limit with | some l => 0 < l | none => True
               rw [v] at hpos; cases hl : s.limit <;> simp [hl] at hpos ⊢; omega
+            · show s.off ≤ g1; omega
             · exact h2
           rw [this]
-          show s.data[0]? = some b
+          show s.vd[0]? = some b
           rw [← R.data, ← view_getElem g 0 hpos, hv]; rfl
         have hcons : ∃ t, s1.slice = b :: t := by
           cases hh : s1.slice with
@@ -406,9 +502,107 @@ theorem sim_takeOptU8 (pol : Policy) (hp : Conforming pol) (s : S) (g : G) (R : 
         simp only
         rw [show s1.advance 1 = .ok s2 from hs2]
 
-/-- every operation except the capture frame operations is simulated -/
+/-- opening a capture: nothing moves -/
+theorem sim_capBegin (pol : Policy) (s : S) (g : G) (R : Rel s g) :
+    StepOK pol s .capBegin .unit { g with frames := { buf := [], outer := g.limit } :: g.frames } := by
+  right
+  refine ⟨{ s with frames := { buf := [], outer := s.limit } :: s.frames }, by simp [stepS], ?_, rfl⟩
+  have hoff : ({ s with frames := { buf := [], outer := s.limit } :: s.frames } : S).off = s.off := by
+    simp [S.off]
+  constructor
+  · show g.data = _; rw [R.data]; simp only [S.vd, hoff]
+  · exact R.limit
+  · show _ :: g.frames = _ :: s.frames; rw [R.frames, R.limit]
+  · have := R.seen; simp only [S.vg, hoff] at this ⊢; exact this
+  · rw [hoff]; exact R.off
+  · exact R.granted
+
+/-- closing the innermost capture: the captured octets are handed out; the source below is advanced
+    over them (the base source only when the outermost capture ends) -/
+theorem sim_capEnd (pol : Policy) (s : S) (g : G) (R : Rel s g) (r : Resp) (g' : G)
+    (h : stepG g .capEnd = .ok (r, g')) : StepOK pol s .capEnd r g' := by
+  right
+  have ho := R.off; have hg := R.granted; have hs := R.seen
+  simp only [stepG] at h
+  rw [R.frames] at h
+  cases hF : s.frames with
+  | nil => rw [hF] at h; simp at h
+  | cons f fs =>
+    rw [hF] at h
+    simp only at h
+    have hof := S.off_cons s f fs hF
+    cases hout : f.outer with
+    | none =>
+      rw [hout] at h
+      simp only [Except.ok.injEq, Prod.mk.injEq] at h
+      obtain ⟨hr, hg'⟩ := h
+      subst hr; subst hg'
+      cases fs with
+      | nil =>
+        refine ⟨{ s with data := s.data.drop f.buf.length, granted := s.granted - f.buf.length, limit := none, frames := [] }, ?_, ?_, rfl⟩
+        · have : ¬ s.granted < f.buf.length := by simp at hof; omega
+          simp [stepS, S.capEnd, hF, hout, this]
+        · simp at hof
+          constructor
+          · rw [R.data]; unfold S.vd; rw [hof]; simp [S.off]
+          · rfl
+          · rfl
+          · unfold S.vg at hs ⊢; rw [hof] at hs; simp [S.off]; exact hs
+          · simp [S.off]
+          · show s.granted - f.buf.length ≤ (s.data.drop f.buf.length).length
+            rw [List.length_drop]; omega
+      | cons f2 fs2 =>
+        refine ⟨{ s with limit := none, frames := { f2 with buf := f2.buf ++ f.buf } :: fs2 }, ?_, ?_, rfl⟩
+        · simp [stepS, S.capEnd, hF, hout]
+        · have hoff : ({ s with limit := none, frames := { f2 with buf := f2.buf ++ f.buf } :: fs2 } : S).off = s.off := by
+            rw [hof]; simp [S.off]; omega
+          constructor
+          · show g.data = _; rw [R.data]; simp only [S.vd, hoff]
+          · rfl
+          · rfl
+          · show g.seen ≤ _; simp only [S.vg, hoff] at hs ⊢; exact hs
+          · rw [hoff]; exact ho
+          · exact hg
+    | some l =>
+      rw [hout] at h
+      simp only at h
+      split at h
+      · simp at h
+      · rename_i hl
+        simp only [Except.ok.injEq, Prod.mk.injEq] at h
+        obtain ⟨hr, hg'⟩ := h
+        subst hr; subst hg'
+        cases fs with
+        | nil =>
+          refine ⟨{ s with data := s.data.drop f.buf.length, granted := s.granted - f.buf.length,
+                           limit := some (l - f.buf.length), frames := [] }, ?_, ?_, rfl⟩
+          · have : ¬ s.granted < f.buf.length := by simp at hof; omega
+            simp [stepS, S.capEnd, hF, hout, this, hl]
+          · simp at hof
+            constructor
+            · rw [R.data]; unfold S.vd; rw [hof]; simp [S.off]
+            · rfl
+            · rfl
+            · unfold S.vg at hs ⊢; rw [hof] at hs; simp [S.off]; exact hs
+            · simp [S.off]
+            · show s.granted - f.buf.length ≤ (s.data.drop f.buf.length).length
+              rw [List.length_drop]; omega
+        | cons f2 fs2 =>
+          refine ⟨{ s with limit := some (l - f.buf.length), frames := { f2 with buf := f2.buf ++ f.buf } :: fs2 }, ?_, ?_, rfl⟩
+          · simp [stepS, S.capEnd, hF, hout, hl]
+          · have hoff : ({ s with limit := some (l - f.buf.length), frames := { f2 with buf := f2.buf ++ f.buf } :: fs2 } : S).off = s.off := by
+              rw [hof]; simp [S.off]; omega
+            constructor
+            · show g.data = _; rw [R.data]; simp only [S.vd, hoff]
+            · rfl
+            · rfl
+            · show g.seen ≤ _; simp only [S.vg, hoff] at hs ⊢; exact hs
+            · rw [hoff]; exact ho
+            · exact hg
+
+/-- every operation is simulated -/
 theorem step_sim (pol : Policy) (hp : Conforming pol) (s : S) (g : G) (R : Rel s g) (o : Op)
-    (h1 : o ≠ .capBegin) (h2 : o ≠ .capEnd) (r : Resp) (g' : G) (h : stepG g o = .ok (r, g')) :
+    (r : Resp) (g' : G) (h : stepG g o = .ok (r, g')) :
     StepOK pol s o r g' := by
   cases o with
   | takeOptU8 => exact sim_takeOptU8 pol hp s g R r g' h
@@ -439,12 +633,15 @@ theorem step_sim (pol : Policy) (hp : Conforming pol) (s : S) (g : G) (R : Rel s
     simp only [stepG, Except.ok.injEq, Prod.mk.injEq] at h
     obtain ⟨hr, hg⟩ := h; subst hr; subst hg
     exact sim_reqCapped pol hp s g R n
-  | capBegin => exact absurd rfl h1
-  | capEnd => exact absurd rfl h2
+  | capBegin =>
+    simp only [stepG, Except.ok.injEq, Prod.mk.injEq] at h
+    obtain ⟨hr, hg⟩ := h; subst hr; subst hg
+    exact sim_capBegin pol s g R
+  | capEnd => exact sim_capEnd pol s g R r g' h
   | getPos =>
     simp only [stepG, Except.ok.injEq, Prod.mk.injEq] at h
     obtain ⟨hr, hg⟩ := h; subst hr; subst hg
-    right; exact ⟨s, by simp [stepS, R.data], R, rfl⟩
+    right; exact ⟨s, by simp [stepS, R.data, S.vd_length], R, rfl⟩
 
 
 theorem advance_err_panic (g : G) (n : Nat) (e : Err) (h : g.advance n = .error e) : e.isPanic = true := by
@@ -513,17 +710,17 @@ theorem stepG_err_panic (g : G) (o : Op) (e : Err) (h : stepG g o = .error e) : 
       · cases h
   | getPos => simp [stepG] at h
 
-/-- **Simulation**: a capture-free program that the generous layer runs without a panic is run by
+/-- **Simulation**: ANY program (captures included) that the generous layer runs without a panic is run by
     the stream layer, over ANY conforming grant policy and with ANY request failing, to the same
     value and the same remaining input - or, only if a fault is armed, to the injected source error. -/
-theorem run_sim (pol : Policy) (hp : Conforming pol) (p : Prog α) (hn : NoCap p) :
+theorem run_sim (pol : Policy) (hp : Conforming pol) (p : Prog α) :
     ∀ (s : S) (g : G), Rel s g →
       (∀ a g', runG p g = .ok (a, g') →
         (s.failAt ≠ none ∧ runS pol p s = .error .source) ∨
         ∃ s', runS pol p s = .ok (a, s') ∧ Rel s' g' ∧ s'.failAt = s.failAt) ∧
       (∀ e, runG p g = .error e → e.isPanic = false →
         (s.failAt ≠ none ∧ runS pol p s = .error .source) ∨ runS pol p s = .error e) := by
-  induction hn with
+  induction p with
   | ret a =>
     intro s g R
     exact ⟨fun a' g' h => by simp [runG] at h; obtain ⟨h1, h2⟩ := h; subst h1; subst h2
@@ -533,7 +730,7 @@ theorem run_sim (pol : Policy) (hp : Conforming pol) (p : Prog α) (hn : NoCap p
     intro s g R
     exact ⟨fun a g' h => by simp [runG] at h,
            fun e h _ => by simp [runG] at h; subst h; exact Or.inr rfl⟩
-  | op o k h1 h2 hk ih =>
+  | op o k ih =>
     intro s g R
     cases hs : stepG g o with
     | error e0 =>
@@ -544,7 +741,7 @@ theorem run_sim (pol : Policy) (hp : Conforming pol) (p : Prog α) (hn : NoCap p
         rw [stepG_err_panic g o e0 hs] at hp'; cases hp'
     | ok rg =>
       obtain ⟨r, g1⟩ := rg
-      rcases step_sim pol hp s g R o h1 h2 r g1 hs with ⟨hfa, hsrc⟩ | ⟨s1, hs1, R1, hf1⟩
+      rcases step_sim pol hp s g R o r g1 hs with ⟨hfa, hsrc⟩ | ⟨s1, hs1, R1, hf1⟩
       · have hne : s.failAt ≠ none := by rw [hfa]; simp
         constructor
         · intro a g' _; left; exact ⟨hne, by simp [runS, hsrc]⟩
